@@ -91,6 +91,32 @@ class Garbage:
         return np.column_stack([1 - p, p])
 
 
+class CellProba:
+    """a saturated learner with the scikit-learn classifier interface only (fit / predict_proba with one column per class, no
+    predict): the fitted probability of a row is the mean of y over the training rows with the same design row"""
+
+    def __init__(self):
+        self.cells = {}
+
+    def get_params(self, deep=False):
+        return {}
+
+    def set_params(self, **p):
+        return self
+
+    def fit(self, X, y):
+        X, y = np.asarray(X, dtype=float), np.asarray(y, dtype=float)
+        acc = {}
+        for row, v in zip(map(tuple, X), y):
+            acc.setdefault(row, []).append(v)
+        self.cells = {k: float(np.mean(v)) for k, v in acc.items()}
+        return self
+
+    def predict_proba(self, X):
+        p = np.array([self.cells.get(tuple(r), 0.5) for r in np.asarray(X, dtype=float)], dtype=float)
+        return np.column_stack([1 - p, p])
+
+
 # ---- helpers that are documented as displays / diagnostics / plots: calling them must never change what an estimator
 # ---- stores or what it returns later.  poke() calls every one the object has (default arguments, plus iptw_only=False where
 # ---- the signature offers it); exceptions are ignored (several helpers do not run on the installed numpy at all).
